@@ -1216,3 +1216,42 @@ mut("c17-handoff-falls-through", ["C17"], [("notifications.go", '''	select {
 	case <-s.quit:
 	}
 	return <-replyChan''')], ["C17.X1"])
+
+# ---- C18 ----
+mut("c18-headertip-no-mutex", ["C18"], [(BM, '''	b.newHeadersMtx.Lock()
+	b.headerTip = uint32(finalHeight)
+	b.headerTipHash = *finalHash
+	b.newHeadersMtx.Unlock()''', '''	b.headerTip = uint32(finalHeight)
+	b.headerTipHash = *finalHash''')], ["C18.L1"])
+mut("c18-plain-read-atomic", ["C18"], [(N, '''	return atomic.LoadUint64(&s.bytesReceived),
+		atomic.LoadUint64(&s.bytesSent)''', '''	return atomic.LoadUint64(&s.bytesReceived),
+		s.bytesSent''')], ["C18.A1"])
+mut("c18-exported-headerlist-reader", ["C18"], [], ["C18.R1"], new_files=[("zz_api.go", '''package neutrino
+
+// ZZTipHeight reports the height of the in-memory header list tail.
+func (s *ChainService) ZZTipHeight() int32 {
+	return s.blockManager.headerList.Back().Height
+}
+''')])
+mut("c18-syncpeer-write-unlocked", ["C18"], [(BM, '''		b.syncPeerMutex.Lock()
+		b.syncPeer = bestPeer
+		b.syncPeerMutex.Unlock()''', '''		b.syncPeer = bestPeer''')], ["C18.L1"])
+mut("c18-subscribe-no-lock", ["C18"], [(N, '''func (sp *ServerPeer) subscribeRecvMsg(subscription spMsgSubscription) {
+	sp.mtxSubscribers.Lock()
+	defer sp.mtxSubscribers.Unlock()
+''', '''func (sp *ServerPeer) subscribeRecvMsg(subscription spMsgSubscription) {
+''')], ["C18.L1"])
+mut("c18-rescan-err-unlocked", ["C18"], [(RS, '''		r.errMtx.Lock()
+		r.err = err
+		r.errMtx.Unlock()''', '''		r.err = err''')], ["C18.L1"])
+mut("c18-peerstate-from-api", ["C18"], [], ["C18.R1"], new_files=[("zz_api2.go", '''package neutrino
+
+// ZZSubscriberCount is called on the user's goroutine.
+func (s *ChainService) ZZSubscriberCount() int {
+	return len(s.peerSubscribers)
+}
+''')])
+mut("c18-lock-leak-root", ["C18"], [(N, '''	sp.mtxSubscribers.Lock()
+	defer sp.mtxSubscribers.Unlock()
+	sp.recvSubscribers[subscription] = struct{}{}''', '''	sp.mtxSubscribers.Lock()
+	sp.recvSubscribers[subscription] = struct{}{}''')], ["C18.L1"])
